@@ -10,13 +10,18 @@ import (
 	"errors"
 	"flag"
 	"fmt"
+	"bytes"
 	"runtime"
 	"strconv"
 	"strings"
+	"sync"
+	"sync/atomic"
 	"time"
 
 	"github.com/ipfs/go-cid"
 	"github.com/ipni/go-libipni/announce"
+	"github.com/ipni/go-libipni/announce/message"
+	pubsub "github.com/libp2p/go-libp2p-pubsub"
 	"github.com/libp2p/go-libp2p"
 	"github.com/libp2p/go-libp2p/core/host"
 	"github.com/libp2p/go-libp2p/core/peer"
@@ -160,6 +165,81 @@ func errName(err error) string {
 	return "err:" + err.Error()
 }
 
+// psEnv is a pair of connected libp2p hosts on one gossipsub topic: h1 carries the Receiver under test (and a probe
+// subscription of the harness, which also keeps h1 subscribed between receivers), h2 is the remote publisher / relay.
+type psEnv struct {
+	h1, h2 host.Host
+	t1, t2 *pubsub.Topic
+	probe  *pubsub.Subscription
+	cancel context.CancelFunc
+}
+
+var (
+	psOnce sync.Once
+	psInst *psEnv
+	psErr  error
+)
+
+func getPsEnv() (*psEnv, error) {
+	psOnce.Do(func() {
+		e := &psEnv{}
+		var ctx context.Context
+		ctx, e.cancel = context.WithCancel(context.Background())
+		mk := func() (host.Host, *pubsub.Topic, error) {
+			h, err := libp2p.New(libp2p.ListenAddrStrings("/ip4/127.0.0.1/tcp/0"))
+			if err != nil {
+				return nil, nil, err
+			}
+			ps, err := pubsub.NewGossipSub(ctx, h)
+			if err != nil {
+				return nil, nil, err
+			}
+			t, err := ps.Join("/verif/c09")
+			return h, t, err
+		}
+		if e.h1, e.t1, psErr = mk(); psErr != nil {
+			return
+		}
+		if e.h2, e.t2, psErr = mk(); psErr != nil {
+			return
+		}
+		if e.probe, psErr = e.t1.Subscribe(); psErr != nil {
+			return
+		}
+		if psErr = e.h2.Connect(ctx, peer.AddrInfo{ID: e.h1.ID(), Addrs: e.h1.Addrs()}); psErr != nil {
+			return
+		}
+		deadline := time.Now().Add(5 * time.Second)
+		for len(e.t2.ListPeers()) == 0 { // h2 has learned that h1 is subscribed
+			if time.Now().After(deadline) {
+				psErr = errors.New("gossipsub peers did not learn of each other's subscription")
+				return
+			}
+			time.Sleep(2 * time.Millisecond)
+		}
+		psInst = e
+	})
+	return psInst, psErr
+}
+
+// watcher progress observed through the (non-parking) yield hook
+var (
+	wNext, wSend atomic.Int64
+	wGid         atomic.Int64
+)
+
+func observeWatcher(point string) {
+	switch point {
+	case "w.next":
+		wGid.Store(goid())
+		wNext.Add(1)
+	case "h.send":
+		if goid() == wGid.Load() {
+			wSend.Add(1)
+		}
+	}
+}
+
 // replayReceiver runs one behaviour on a real Receiver. Returns divergence key/detail, tolerated flag.
 func replayReceiver(b *behaviour, watchdog time.Duration, withTopic bool) (key, detail string, at int) {
 	cids := map[string]string{}
@@ -170,7 +250,55 @@ func replayReceiver(b *behaviour, watchdog time.Duration, withTopic bool) (key, 
 	}
 	var h host.Host
 	topic := ""
-	if withTopic {
+	usesPubsub := false
+	for _, st := range b.Steps {
+		usesPubsub = usesPubsub || strings.HasPrefix(st.Op, "pubsub-")
+	}
+	ropts := []announce.Option{announce.WithAllowPeer(allow), announce.WithFilterIPs(true)}
+	var ps *psEnv
+	var pmu sync.Mutex // guards what the watcher's allow callback reads
+	h2Allowed := false
+	plainBy := map[string]string{} // CID -> model peer of the "plain" pubsub step that announced it (the remote host itself)
+	show := func(a announce.Announce) string {
+		if ps != nil && a.PeerID == ps.h2.ID() {
+			// attributed to the remote host: right only for a message that host published for itself
+			pmu.Lock()
+			name, ok := plainBy[a.Cid.String()]
+			pmu.Unlock()
+			if !ok {
+				name = "?relay"
+			}
+			pp := map[peer.ID]string{a.PeerID: name}
+			return showMsg(a, cids, pp)
+		}
+		return showMsg(a, cids, peers)
+	}
+	if usesPubsub {
+		var err error
+		if ps, err = getPsEnv(); err != nil {
+			return "infra", err.Error(), 0
+		}
+		h = ps.h1
+		inner := allow
+		allow = func(p peer.ID) bool {
+			pmu.Lock()
+			defer pmu.Unlock()
+			if p == ps.h2.ID() {
+				return h2Allowed // the remote host publishing for itself: allowed or not as the step says
+			}
+			return inner(p)
+		}
+		ropts = []announce.Option{announce.WithAllowPeer(allow), announce.WithFilterIPs(true), announce.WithTopic(ps.t1)}
+		announce.VerifYield = observeWatcher
+		defer func() { announce.VerifYield = nil }()
+		// drain what earlier behaviours left in the probe subscription
+		for drained := false; !drained; {
+			dctx, c := context.WithTimeout(context.Background(), 3*time.Millisecond)
+			_, err := ps.probe.Next(dctx)
+			c()
+			drained = err != nil
+		}
+	} else if withTopic {
 		var err error
 		h, err = libp2p.New(libp2p.ListenAddrStrings("/ip4/127.0.0.1/tcp/0"))
 		if err != nil {
@@ -179,9 +307,19 @@ func replayReceiver(b *behaviour, watchdog time.Duration, withTopic bool) (key, 
 		defer h.Close()
 		topic = "/verif/announce"
 	}
-	r, err := announce.NewReceiver(h, topic, announce.WithAllowPeer(allow), announce.WithFilterIPs(true))
+	wGid.Store(0)
+	r, err := announce.NewReceiver(h, topic, ropts...)
 	if err != nil {
 		return "infra", err.Error(), 0
+	}
+	if usesPubsub { // the watcher reaches its first hook
+		deadline := time.Now().Add(watchdog)
+		for wGid.Load() == 0 || !goroutineRunning("announce.(*Receiver).watch") {
+			if time.Now().After(deadline) {
+				return "infra", "watcher did not start", 0
+			}
+			time.Sleep(50 * time.Microsecond)
+		}
 	}
 	var bsend, brecv *pending
 	var all []*pending
@@ -191,7 +329,7 @@ func replayReceiver(b *behaviour, watchdog time.Duration, withTopic bool) (key, 
 		go func() { r.Close(); close(c) }()
 		select {
 		case <-c:
-			if key == "" && withTopic {
+			if key == "" && (withTopic || usesPubsub) {
 				deadline := time.Now().Add(watchdog)
 				for goroutineRunning("announce.(*Receiver).watch") {
 					if time.Now().After(deadline) {
@@ -248,13 +386,75 @@ func replayReceiver(b *behaviour, watchdog time.Duration, withTopic bool) (key, 
 				if err != nil {
 					return errName(err)
 				}
-				return showMsg(a, cids, peers)
+				return show(a)
 			})
 		case "uncache":
 			c := mkCid(st.Cid)
 			self = start(func() string { r.UncacheCid(c); return "ok" })
 		case "close":
 			self = start(func() string { return errName(r.Close()) })
+		case "pubsub-plain", "pubsub-relayed", "pubsub-self":
+			c := mkCid(st.Cid)
+			cids[c.String()] = st.Cid
+			m := message.Message{Cid: c}
+			m.SetAddrs(addrsOf(st.Addrs))
+			tp := ps.t2
+			pmu.Lock()
+			switch st.Op {
+			case "pubsub-plain": // sent by the publisher itself: the remote host is the source peer
+				h2Allowed = st.Peer == "ok"
+				if st.Peer == "ok" { // a refused one delivers nothing
+					plainBy[c.String()] = st.Peer
+				}
+			case "pubsub-relayed": // re-published by the remote host on behalf of the original publisher
+				m.OrigPeer = ids.Peer("rcv-" + st.Peer).String()
+			case "pubsub-self": // a re-publication by the receiver's own host
+				m.OrigPeer = ids.Peer("rcv-" + st.Peer).String()
+				tp = ps.t1
+			}
+			pmu.Unlock()
+			var buf bytes.Buffer
+			if err := m.MarshalCBOR(&buf); err != nil {
+				return "infra", err.Error(), i
+			}
+			n0, s0 := wNext.Load(), wSend.Load()
+			if err := tp.Publish(context.Background(), buf.Bytes()); err != nil {
+				return "infra", "publish: " + err.Error(), i
+			}
+			pctx, pc := context.WithTimeout(context.Background(), watchdog)
+			_, err := ps.probe.Next(pctx)
+			pc()
+			if err != nil {
+				return "infra", "pubsub message did not arrive at the receiver's host: " + err.Error(), i
+			}
+			if st.Exp == "closed" {
+				break // the watcher has exited with the receiver; nothing handles the message
+			}
+			// the watcher handles the message: it is back at the top of its loop, or (model: blocks) waits in the select
+			blocks := strings.HasSuffix(st.Exp, "+blocks")
+			deadline := time.Now().Add(watchdog)
+			for {
+				if !blocks && wNext.Load() > n0 {
+					break
+				}
+				if wSend.Load() > s0 && waitParked(wGid.Load(), time.Millisecond) && wNext.Load() == n0 {
+					if blocks {
+						break
+					}
+					if st.Exp == "either" {
+						return "", "tolerated:duplicate-window-ambiguous", i
+					}
+					return "watcher-blocked", fmt.Sprintf("step %d (%s %s by %s): the watcher is blocked delivering the announcement, model: %s", i, st.Op, st.Cid, st.Peer, st.Exp), i
+				}
+				if time.Now().After(deadline) {
+					if blocks && wNext.Load() > n0 && st.Exp == "either+blocks" {
+						return "", "tolerated:duplicate-window-ambiguous", i
+					}
+					return "watcher-progress", fmt.Sprintf("step %d (%s %s by %s): the watcher did not get to where the model has it (%s) within %v (w.next %d->%d, h.send %d->%d)",
+						i, st.Op, st.Cid, st.Peer, st.Exp, watchdog, n0, wNext.Load(), s0, wSend.Load()), i
+				}
+				time.Sleep(50 * time.Microsecond)
+			}
 		}
 		selfReturns := false
 		for _, rt := range st.Rets {
@@ -291,7 +491,7 @@ func replayReceiver(b *behaviour, watchdog time.Duration, withTopic bool) (key, 
 				return k, fmt.Sprintf("step %d (%s %s by %s): the %s call returned %q, model %q", i, st.Op, st.Cid, st.Peer, rt.T, got, rt.R), i
 			}
 		}
-		if !selfReturns {
+		if !selfReturns && self != nil {
 			if !waitParked(self.gid, watchdog) {
 				return "infra", "call did not park", i
 			}
